@@ -34,6 +34,7 @@ func (c *FnVC) atAssertsGen(b *ssa.BasicBlock, name, tag string, args []string, 
 		return
 	}
 	matched := 0
+	tagSeen := map[string]int{}
 	for _, at := range c.ct.At {
 		if at.After != after {
 			continue
@@ -43,6 +44,9 @@ func (c *FnVC) atAssertsGen(b *ssa.BasicBlock, name, tag string, args []string, 
 		}
 		matched++
 		clauseNo := matched
+		if at.C.Tag != "" {
+			tagSeen[at.C.Tag]++
+		}
 		if at.Nth != 0 && at.Nth != c.callN[name] {
 			continue
 		}
@@ -76,6 +80,10 @@ func (c *FnVC) atAssertsGen(b *ssa.BasicBlock, name, tag string, args []string, 
 			}
 			if at.C.Tag != "" {
 				on = fmt.Sprintf("%s@%s.%s.c%d", kind, tag, at.C.Tag, j+1)
+				if tagSeen[at.C.Tag] > 1 {
+					// several clauses of one call site share the tag: number them
+					on = fmt.Sprintf("%s@%s.%s%d.c%d", kind, tag, at.C.Tag, tagSeen[at.C.Tag], j+1)
+				}
 			}
 			c.obligeNamed("at", on, t, c.reach[b], "assertion "+word+" of "+name+": "+exprString(cj), nil)
 			// a proved assertion is a fact for everything after it (as with the implicit
